@@ -102,6 +102,10 @@ def make_ops(model: Model):
                 out.append(("ValueError", unparse(n)))
             elif d == "len" and n.args and K(n.args[0]) == "RAW" and not _type_checked(f, n, n.args[0]):
                 out.append(("TypeError", unparse(n)))
+            elif d in ("itertools.islice", "islice", "iter") and n.args and K(n.args[0]) == "RAW" and not _type_checked(f, n, n.args[0]):
+                # walking a value of unchecked type: not iterable (TypeError), or a PDFStream - __getitem__ without __iter__ (KeyError 0)
+                out.append(("TypeError", unparse(n)))
+                out.append(("KeyError", unparse(n)))
             elif isinstance(n.func, ast.Attribute) and n.func.attr == "seek" and len(n.args) >= 1 and K(n.args[0]) in ("NUM", "RAW") and not _nonneg_checked(f, n, n.args[0]):
                 # file.seek(negative) raises ValueError
                 out.append(("ValueError", unparse(n)))
@@ -170,6 +174,9 @@ def make_ops(model: Model):
             it = n.iter
             if K(it) == "RAW" and not _type_checked(f, n, it):
                 out.append(("TypeError", f"for ... in {unparse(it)}"))
+                # a PDFStream has __getitem__ (dictionary access) and no __iter__: iterating one goes through the old sequence
+                # protocol and asks for key 0
+                out.append(("KeyError", f"for ... in {unparse(it)}"))
             if isinstance(n.target, (ast.Tuple, ast.List)):
                 ek = dt(f).elem_kind(it)
                 if ek == "RAW":
